@@ -105,6 +105,10 @@ func (r *c18Run) runMultiImpl(cs *c18Case, text string, n int) ([]*flavors.Insta
 		src = "(list (load-bag c18-in))"
 	case "make-bag":
 		src = "(list (make-bag c18-in))"
+	case "init-parse":
+		src = "(list (make-instance 'bag-flavor :parse c18-in))"
+	case "bag-parse":
+		src = "(list (bag-parse (make-bag \"0\") c18-in))"
 	default:
 		return nil, lib.Outcome{Class: "harness-bug", Msg: "entry " + cs.Entry}
 	}
@@ -138,7 +142,7 @@ func (r *c18Run) runMultiImpl(cs *c18Case, text string, n int) ([]*flavors.Insta
 		inst, _ := list[i].(*flavors.Instance)
 		out = append(out, inst)
 	}
-	if cs.Entry == "bag-read" || cs.Entry == "send-read" || cs.Entry == "init-read" || cs.Entry == "load-bag" || cs.Entry == "make-bag" {
+	if cs.Entry == "bag-read" || cs.Entry == "send-read" || cs.Entry == "init-read" || cs.Entry == "load-bag" || cs.Entry == "make-bag" || cs.Entry == "init-parse" || cs.Entry == "bag-parse" {
 		out = out[:0]
 		for _, e := range list {
 			inst, _ := e.(*flavors.Instance)
